@@ -105,9 +105,21 @@ def parse_clauses(cls, src, items):
     keyv, valv = 'key', 'value'
     body = body_wo_doc(fn)
     clauses = []
-    if len(body) != 1 or not isinstance(body[0], ast.If):
-        raise TranslationError(REL, fn, '_parse must be a single if/elif chain')
-    cur = body[0]
+    # every clause is `return <expr>`, so a sequence of independent `if`s is the same function as the if/elif chain; a final
+    # `return None` (or an `else: return None`) spells out the fall-through
+    if body and isinstance(body[-1], ast.Return) and (body[-1].value is None or (isinstance(body[-1].value, ast.Constant) and body[-1].value.value is None)):
+        body = body[:-1]
+    if not body or not all(isinstance(b, ast.If) for b in body) or any(b.orelse for b in body[:-1]):
+        raise TranslationError(REL, fn, '_parse must be an if/elif chain (or consecutive ifs) of `key == <literal>: return <expr>` clauses')
+    chain = None
+    for b in reversed(body):
+        if chain is not None:
+            nb = ast.If(test=b.test, body=b.body, orelse=[chain])
+            ast.copy_location(nb, b)
+            chain = nb
+        else:
+            chain = b
+    cur = chain
     while True:
         t = cur.test
         if not (isinstance(t, ast.Compare) and len(t.ops) == 1 and isinstance(t.ops[0], ast.Eq)
@@ -123,6 +135,9 @@ def parse_clauses(cls, src, items):
         if len(cur.orelse) == 1 and isinstance(cur.orelse[0], ast.If):
             cur = cur.orelse[0]
             continue
+        if len(cur.orelse) == 1 and isinstance(cur.orelse[0], ast.Return) and (
+                cur.orelse[0].value is None or (isinstance(cur.orelse[0].value, ast.Constant) and cur.orelse[0].value.value is None)):
+            break
         raise TranslationError(REL, cur.orelse[0], 'unexpected else branch in _parse')
     return clauses
 
